@@ -127,6 +127,16 @@ CURATED = [
     ("Row", "traverse(1,2)", lambda r: list(r.traverse(start=1, end=2))),
     ("Row", "get_cells(range)", lambda r: r.get_cells((1, 2))),
     ("Row", "get_values(range)", lambda r: r.get_values((1, 3))),
+    # ranged reads starting at EVERY position (a range may begin inside, or on the last item of, a repeated run)
+    ("Row", "get_values(every range)", lambda r: [r.get_values((s, s + 2)) for s in range(min(r.width, 12) + 1)]),
+    ("Row", "get_cells(every range)", lambda r: [r.get_cells((s, s + 1)) for s in range(min(r.width, 12) + 1)]),
+    ("Row", "traverse(every start)", lambda r: [list(r.traverse(start=s, end=s + 1)) for s in range(min(r.width, 12) + 1)]),
+    ("Table", "get_rows(every range)", lambda t: [t.get_rows((s, s + 1)) for s in range(min(t.height, 12) + 1)]),
+    ("Table", "traverse(every start)", lambda t: [list(t.traverse(start=s, end=s + 2)) for s in range(min(t.height, 12) + 1)]),
+    ("Table", "get_columns(every range)", lambda t: [t.get_columns((s, s + 1)) for s in range(min(t.width, 12) + 1)]),
+    ("Table", "traverse_columns(every start)", lambda t: [list(t.traverse_columns(start=s, end=s + 2)) for s in range(min(t.width, 12) + 1)]),
+    ("Table", "get_cells(every area)", lambda t: [t.get_cells((s, s, s + 2, s + 2)) for s in range(min(t.width, t.height, 8) + 1)]),
+    ("Table", "get_values(every area)", lambda t: [t.get_values((s, s, s + 2, s + 2)) for s in range(min(t.width, t.height, 8) + 1)]),
     ("Body", "search", lambda b: b.search("e")),
     ("Body", "search_all", lambda b: b.search_all("a")),
     ("Body", "search_first", lambda b: b.search_first("a")),
@@ -231,8 +241,13 @@ def history(args) -> list:
             continue
         for name, fn in catalogue(label, obj):
             calls.append((label, getter, name, fn))
-    rng.shuffle(calls)
-    for label, getter, name, fn in calls[:max_calls]:
+    # every curated call (they carry the arguments that matter: ranges, formatted=True ...) + a sample of the introspected ones
+    curated = [c for c in calls if ":" in c[2]]
+    others = [c for c in calls if ":" not in c[2]]
+    rng.shuffle(others)
+    chosen = curated + others[:max_calls]
+    rng.shuffle(chosen)
+    for label, getter, name, fn in chosen:
         ev = {"op": "pure", "name": name, "target": label}
         try:
             r1 = stable(fn(getter()))
